@@ -708,7 +708,7 @@ var propDeps = map[string][]string{
 	"C08": {"rfmt", "builder", "root", "markers", "buffer"},
 	"C09": {"builder", "rfmt", "buffer"},
 	"C10": {"escape", "buffer", "rfmt"},
-	"C12": {"rfmt", "buffer"},
+	"C12": {"rfmt", "buffer", "builder"},
 	"C13": {"buffer", "builder"},
 	"C14": {"fmtforward", "rfmt"},
 	"C15": {"rfmt"},
